@@ -18,3 +18,8 @@ open PyPred
 #print axioms Gen.uniform_le
 #print axioms Gen.subset_sound
 #print axioms Gen.rsubset_sound
+#print axioms Gen.C09_judged_by_C08_evaluator
+#print axioms Gen.evalG_embed
+#print axioms Gen.evalG_embed_atom
+#print axioms Gen.pyEq_embed
+#print axioms Gen.pyCmp_embed
